@@ -846,10 +846,14 @@ class Resolver:
         order: List[str] = []
         for n in ast.walk(sa.node):
             if isinstance(n, ast.If):
-                t = n.test
+                t, when_t, when_f = n.test, n.body, n.orelse
+                while isinstance(t, ast.UnaryOp) and isinstance(t.op, ast.Not):
+                    t, when_t, when_f = t.operand, when_f, when_t
+                if isinstance(t, ast.Compare) and isinstance(t.ops[0], ast.NotIn):
+                    t, when_t, when_f = ast.Compare(t.left, [ast.In()], t.comparators), when_f, when_t
                 if isinstance(t, ast.Compare) and isinstance(t.ops[0], ast.In) and isinstance(t.comparators[0], (ast.Tuple, ast.List)):
                     names = {e.value for e in t.comparators[0].elts if isinstance(e, ast.Constant)}
-                    sets = [c2 for s in n.body for c2 in calls_in(s) if call_name(c2) == "setattr"]
+                    sets = [c2 for s in when_t if not isinstance(s, ast.If) for c2 in calls_in(s) if call_name(c2) == "setattr"]
                     if len(sets) >= 2:
                         both |= names
                 if isinstance(t, ast.Call) and call_name(t) == "hasattr" and len(t.args) == 2:
